@@ -36,7 +36,7 @@ func vSequences(ops []VOp, depth int) [][]VOp {
 func init() {
 	engine.RegisterCheck("C04", func(r *engine.Run) {
 		r.Level = "fault_enumeration"
-		r.Rule = "CRASH: for every write history (all sequences up to the stated depth over the alphabet, on a store that already holds one committed batch) the process is really SIGKILLed immediately before every durable badger commit of the history (each one separately), at every hit of every named point in StoreEntities/ExecuteTransaction, and - for every asynchronous commit (Txn.CommitWith) the code issues - right after the acknowledgement with that commit not yet in the write-ahead log; three histories with a batch of 1101 entities and five with a transaction through a contextual store (as a javascript transform issues it; also right after a rejected batch) are included, as are batches that re-send what a refused batch carried and histories with rename / delete / create of datasets between the writes; the store is reopened in a new process and must equal the reference model after the acknowledged ops or after those plus the in-flight op, satisfy the cross-index invariants, and accept further writes with fresh positions and ids. distinct = distinct canonical recovered states"
+		r.Rule = "CRASH: for every write history (all sequences up to the stated depth over the alphabet, on a store that already holds one committed batch) the process is really SIGKILLed immediately before every durable badger commit of the history (each one separately), at every hit of every named point in StoreEntities/ExecuteTransaction, and - for every asynchronous commit (Txn.CommitWith) the code issues - right after the acknowledgement with that commit not yet in the write-ahead log; three histories with a batch of 1101 entities and seven with a transaction through a contextual store or with one new identifier in both of its datasets (as a javascript transform issues it; also right after a rejected batch) are included, as are batches that re-send what a refused batch carried and histories with rename / delete / create of datasets between the writes; the store is reopened in a new process and must equal the reference model after the acknowledged ops or after those plus the in-flight op, satisfy the cross-index invariants, and accept further writes with fresh positions and ids. distinct = distinct canonical recovered states"
 		r.Assumptions = []string{"a badger commit is atomic with respect to process kill", "process-kill model: the OS and page cache survive (no power loss)", "the items counter of the meta-entity is outside this property"}
 		pool := model.Pool(0)
 		pi := func(n string) int { return model.PoolIndex(pool, n) }
@@ -64,7 +64,10 @@ func init() {
 		ctxTxn := VOp{K: "txn", Via: "ctx0", Parts: map[string][]VEnt{"A": {{"e2", pi("v1")}}, "B": {{"e4", pi("r1")}}}}
 		bad := VOp{K: "badbatch", DS: "A", Ents: []VEnt{{"e4", pi("v1")}}}
 		var ctxBases []map[string]interface{}
-		for _, h := range [][]VOp{{ctxTxn}, {bad, ctxTxn}, {ctxTxn, alpha[0]}, {bad, ctxTxn, alpha[1]}, {alpha[2], ctxTxn}} {
+		// one identifier the hub has never seen, in both datasets of one transaction
+		sameNew := VOp{K: "txn", Parts: map[string][]VEnt{"A": {{"e4", pi("v1")}}, "B": {{"e4", pi("v2")}}}}
+		sameNewCtx := VOp{K: "txn", Via: "ctx0", Parts: map[string][]VEnt{"A": {{"e4", pi("v1")}}, "B": {{"e4", pi("v2")}}}}
+		for _, h := range [][]VOp{{ctxTxn}, {bad, ctxTxn}, {ctxTxn, alpha[0]}, {bad, ctxTxn, alpha[1]}, {alpha[2], ctxTxn}, {sameNew}, {sameNewCtx, alpha[0]}} {
 			ctxBases = append(ctxBases, vToMap(CrashSpec{Datasets: vDS, IDs: vIDs, Pre: pre, Hist: h, Kind: "store"}))
 		}
 		engine.RunCrash(r, "c04-contextual-store", []string{"worker", "crash-store"}, ctxBases, 0)
